@@ -50,6 +50,7 @@ type fakeDriver struct {
 	returned [][]byte // buffers handed to the library
 	listenCB func([]byte)
 	noListen bool
+	delay    time.Duration // the exchange takes this long (a slow controller / network)
 }
 
 func ipBytes(ip net.IP) []byte {
@@ -60,6 +61,9 @@ func ipBytes(ip net.IP) []byte {
 }
 
 func (f *fakeDriver) record(m string, ip net.IP, port int, req []byte) {
+	if f.delay > 0 {
+		defer time.Sleep(f.delay)
+	}
 	f.calls = append(f.calls, Call{m, append([]byte{}, ipBytes(ip)...), port, append([]byte{}, req...)})
 	if f.scribble { // the driver owns what it is handed: the library must not rely on it afterwards
 		for i := range ip {
